@@ -27,7 +27,8 @@ Pair level:      a reported (s, c) is forbidden if c is NOMATCH for s (or c is n
                  NOMATCH, every MATCH global negative response.
 
 The envelope is deliberately small and boring: STANDARD-LENGTH A_UINT32 types (high-low byte order), whole bytes
-except for CODED-CONSTs (1..32 bits at a bit position; the constants of the prefix must fill whole bytes),
+except for CODED-CONSTs and VALUEs (1..32 bits at a bit position; the prefix is the leading run of bytes which
+the leading constants cover completely),
 IDENTICAL compu methods, parameters CODED-CONST, PHYS-CONST (whole bytes; a differing PHYS-CONST is NOMATCH
 anywhere: the parameter refuses it itself in strict mode), VALUE, MATCHING-REQUEST-PARAM, NRC-CONST, explicit or automatic
 byte positions.  Anything else raises Envelope.
@@ -105,7 +106,7 @@ class RefLayer:
             pos = p["byte"] if p.get("byte") is not None else cursor
             t = p["t"]
             hard = False
-            if p.get("bit") and t != "CODED-CONST":
+            if p.get("bit") and t not in ("CODED-CONST", "VALUE"):
                 raise Envelope("bit position")
             if t in ("CODED-CONST", "PHYS-CONST"):
                 if t == "PHYS-CONST":  # (IDENTICAL compu method: the physical constant is the coded value)
@@ -141,8 +142,9 @@ class RefLayer:
                 else:
                     in_prefix = False
             elif t == "VALUE":
-                n = _nbytes(self._simple_dop(p["dop"]))
-                arg = None
+                bit, nbits = p.get("bit") or 0, _nbits(self._simple_dop(p["dop"]))
+                n = (bit + nbits + 7) // 8
+                arg = (bit, nbits)
                 in_prefix = False
             elif t == "NRC-CONST":
                 n = _nbytes(p["dct"])
@@ -153,9 +155,15 @@ class RefLayer:
             steps.append(Step(t, p["name"], pos, n, arg, hard))
             cursor = pos + n
             length = max(length, cursor)
-        if any(c != 0xFF for c in cover):
-            raise Envelope("constant prefix ends inside a byte")
-        return Plan(steps, length, bytes(pbytes))
+        # the prefix is made of whole bytes: it ends in front of the first byte that the leading constants do not cover
+        # completely; a constant reaching beyond that point is an ordinary constant behind the prefix
+        plen = 0
+        while plen < len(cover) and cover[plen] == 0xFF:
+            plen += 1
+        for st in steps:
+            if st.hard and st.pos + st.n > plen:
+                st.hard = False
+        return Plan(steps, length, bytes(pbytes[:plen]))
 
     def _simple_dop(self, name: str) -> Dict[str, Any]:
         d = self.dops[name]
@@ -200,7 +208,7 @@ class RefLayer:
                     soft = soft or "echoed request bytes differ from the request constants outside the prefix"
                 values[st.name] = {"echo": bytes(raw)}
             elif st.kind == "VALUE":
-                values[st.name] = int.from_bytes(raw, "big")
+                values[st.name] = (int.from_bytes(raw, "big") >> st.arg[0]) & ((1 << st.arg[1]) - 1)
             else:  # NRC-CONST
                 v = int.from_bytes(raw, "big")
                 if v not in st.arg:
@@ -292,7 +300,14 @@ class RefLayer:
                     raise Envelope("request too short for the matching-request parameter")
                 bs = bytes(request[p["rq_byte"]:p["rq_byte"] + st.n])
             elif st.kind == "VALUE":
-                bs = int(values[st.name]).to_bytes(st.n, "big")
+                bit, nbits = st.arg
+                if not 0 <= int(values[st.name]) < (1 << nbits):
+                    raise Envelope("value out of range")
+                mb = (((1 << nbits) - 1) << bit).to_bytes(st.n, "big")
+                vb = (int(values[st.name]) << bit).to_bytes(st.n, "big")
+                for i in range(st.n):
+                    out[st.pos + i] = (out[st.pos + i] & ~mb[i] & 0xFF) | vb[i]
+                continue
             else:
                 continue  # NRC-CONST claims nothing (an overlapping VALUE supplies the byte)
             out[st.pos:st.pos + st.n] = bs
